@@ -50,7 +50,7 @@ XPATH = {"gdecl": "/nta/declaration", "params": "/nta/template[1]/parameter", "l
 def layout(lines, variant):
     """render the lines of one block in a layout variant; returns the XML-escaped text"""
     esc = X.esc
-    if variant == "plain":
+    if variant in ("plain", "selfclosing-siblings"):
         return esc("\n".join(lines))
     if variant == "leading-blank-lines":
         return esc("\n\n\n" + "\n".join(lines))
@@ -75,7 +75,7 @@ def layout(lines, variant):
 
 LAYOUTS_Q = ["plain", "leading-blank-lines", "crlf-charrefs"]
 LAYOUTS_T = LAYOUTS_Q + ["block-comment", "line-comments", "tabs", "continuation", "whitespace-only-lines", "trailing-blanks",
-                         "cr-only-and-mixed"]
+                         "cr-only-and-mixed", "selfclosing-siblings"]
 
 
 def render(blocks, variant, only=None):
@@ -89,7 +89,24 @@ def render(blocks, variant, only=None):
          '<transition><source ref="id1"/><target ref="id0"/>%s%s</transition></template>') % (
         b("params"), b("ldecl"), lab("invariant", "inv"), lab("exponentialrate", "rate"), lab("select", "select"), lab("guard", "guard"),
         lab("synchronisation", "sync"), lab("assignment", "assign"), lab("guard", "guard2"), lab("assignment", "assign2"))
-    return X.HEADER + "<nta><declaration>%s</declaration>%s<system>%s</system></nta>\n" % (b("gdecl"), t, b("system"))
+    doc = X.HEADER + "<nta><declaration>%s</declaration>%s<system>%s</system></nta>\n" % (b("gdecl"), t, b("system"))
+    if variant == "selfclosing-siblings":
+        # empty (self-closing) elements in front of the elements that carry text: they count as siblings in every XPath
+        doc = doc.replace('<location id="id0">', '<location id="id9" x="5" y="5"/><location id="id0">', 1)
+        doc = doc.replace('<location id="id0"><name>L0</name>', '<location id="id0"><name>L0</name><label kind="comments" x="1" y="1"/>', 1)
+        doc = doc.replace('<source ref="id0"/><target ref="id1"/>', '<source ref="id0"/><target ref="id1"/><label kind="comments"/>', 1)
+        doc = doc.replace('<source ref="id1"/><target ref="id0"/>', '<source ref="id1"/><target ref="id0"/><label kind="comments"/>', 1)
+    return doc
+
+
+def xpath_of(block, variant):
+    p = XPATH[block]
+    if variant != "selfclosing-siblings":
+        return p
+    p = p.replace("/location[1]", "/location[2]")
+    if "/location[" in p or "/transition[" in p:
+        p = re.sub(r"/label\[(\d+)\]", lambda m: "/label[%d]" % (int(m.group(1)) + 1), p)
+    return p
 
 
 TOKEN = re.compile(r"[A-Za-z_][A-Za-z_0-9]*|\d+|==|<=|>=|!=|&&|\|\||\+\+|--|->|[-+*/%<>=!?:;,.(){}\[\]&|^']")
@@ -195,7 +212,8 @@ def run_shard(arg):
         if not errs:
             part.outcome("fault-not-diagnosed")    # e.g. a deleted token leaving a valid text: nothing to check
             continue
-        here = [e for k, e in errs if e["path"] == XPATH[block]]
+        XP = xpath_of(block, variant)
+        here = [e for k, e in errs if e["path"] == XP]
         # in a declaring block an edit may leave the block valid and only change its meaning (renamed declaration, dropped
         # '&', a side effect added to a function): the fault then surfaces at the uses.  "An error inside the block" is
         # demanded where the block itself is broken: always for non-declaring labels, for bracket/comment faults, and for
@@ -212,10 +230,10 @@ def run_shard(arg):
         if not here:
             part.outcome("no-error-in-faulted-block")
             part.violation("no-error-in-block:%s:%s" % (fid, block),
-                           "%s: errors %s, none inside %s" % (key, [(e["msg"], e["path"]) for k, e in errs][:3], XPATH[block]), rp)
+                           "%s: errors %s, none inside %s" % (key, [(e["msg"], e["path"]) for k, e in errs][:3], XP), rp)
             continue
         if block in NON_DECLARING:
-            other = [e for k, e in errs if e["path"] != XPATH[block]]
+            other = [e for k, e in errs if e["path"] != XP]
             if other:
                 part.outcome("error-attributed-to-other-block")
                 part.violation("error-elsewhere:%s:%s" % (fid, block), "%s: error `%s` attributed to %s" %
@@ -224,7 +242,7 @@ def run_shard(arg):
         if fid == "undeclared-identifier":
             unk = [e for e in here if MARK in e["msg"]]
             if unk:
-                text = (resolve(root, XPATH[block])[0].text or "").split("\n")
+                text = (resolve(root, XP)[0].text or "").split("\n")
                 ok = False
                 for e in unk:
                     if e["sl"] == e["el"] and 1 <= e["sl"] <= len(text) and text[e["sl"] - 1][e["sc"]:e["ec"]] == MARK:
